@@ -33,6 +33,16 @@ import (
 //     recovered value, nothing of the chain runs after the panic, the header is committed exactly once;
 //     no hook => the same value reaches the caller.
 //
+// Second entry point: `serveh …` is `serve …` dispatched through Router.HandleContext(c) with a context prepared by
+// the caller (c.Init(w, req)) instead of ServeHTTP.  The context is a Copy() of a context this router handed out
+// before (so that it knows its router, as a pooled one does); as long as the router has not handed one out, and on
+// the fresh twin, the request goes through ServeHTTP.  Both entry points must give the same answer: the model
+// does not distinguish them.
+//
+// Kept copies: the action `kc` keeps a Context.Copy() beyond the request (not observable by the request itself:
+// the model drops the token).  Oracle (C10 / C03): from the end of its request on, the copy holds exactly the
+// data and params it held then, whatever later requests do with the pooled context.
+//
 // sync.Pool may or may not hand a context out again (it is free to drop items, and does so at random under
 // -race); nothing here assumes reuse: the oracles hold for new and for reused contexts alike.  The number of
 // requests that really ran on a reused context is counted (pointer identity) and reported as engine stats.
@@ -94,7 +104,7 @@ func parseActs(tok string) (acts []dact, ph bool, ok bool) {
 		switch f[0] {
 		case "em", "ss", "wh", "rr", "rq":
 			d.n = intArg(1)
-		case "nx", "ab", "dp":
+		case "nx", "ab", "dp", "kc":
 		case "pn":
 			d.pv = arg(1)
 		case "st", "sp":
@@ -228,6 +238,47 @@ type dcase struct {
 	ctxSeen  map[*rux.Context]bool
 	ctxLost  map[*rux.Context]bool
 	lostSeen bool
+	lastCtx  *rux.Context // a context this router handed out before (source of the contexts given to HandleContext)
+	kept     []*dKept     // copies kept by `kc`
+}
+
+// dKept is a Context.Copy() that a handler kept beyond its request.
+type dKept struct {
+	cp       *rux.Context
+	seq      int    // request that took it
+	snap     string // what it held when that request ended ("" = request still running)
+	reported bool
+}
+
+func showKept(c *rux.Context) string {
+	data := map[string]string{}
+	for k, v := range c.Data() {
+		data[k] = encAny(v)
+	}
+	for k, want := range data {
+		if v, ok := c.Get(k); !ok || encAny(v) != want || encAny(c.SafeGet(k)) != want {
+			data[k] = want + "!get"
+		}
+	}
+	return "d{" + encStrMap(data) + "}p{" + encParams(c.Params) + "}"
+}
+
+// checkKept: every copy whose request is over still holds what it held when the request ended.
+func (cs *dcase) checkKept() {
+	for _, k := range cs.kept {
+		if k.reported {
+			continue
+		}
+		if k.snap == "" {
+			k.snap = showKept(k.cp)
+			continue
+		}
+		if now := showKept(k.cp); now != k.snap {
+			k.reported = true
+			cs.oracle = append(cs.oracle, fmt.Sprintf("C10 kept copy: the Copy() taken in request %d held %s when that request ended, after request %d it holds %s",
+				k.seq, k.snap, cs.seq, now))
+		}
+	}
 }
 
 func newDcase() *dcase {
@@ -330,6 +381,13 @@ func (cs *dcase) runActs(c *rux.Context, acts []dact, pos string) {
 		cs.oracle = append(cs.oracle, "harness: two different contexts within one request")
 	}
 	for _, a := range acts {
+		if a.op == "kc" {
+			if !cs.isTwin {
+				cs.kept = append(cs.kept, &dKept{cp: c.Copy(), seq: cs.seq})
+				dispStat("kept_copies", 1)
+			}
+			continue
+		}
 		first := cs.actions == 0
 		cs.actions++
 		switch a.op {
@@ -576,6 +634,9 @@ func (cs *dcase) config(f []string) string {
 func (cs *dcase) request(f []string) (method, url string, ok bool) {
 	cs.expData = map[string]string{}
 	cs.expParam = "nil"
+	if len(f) == 0 || (f[0] != "serve" && f[0] != "serveh") {
+		return "", "", false
+	}
 	if len(f) == 3 && f[1] == "nf" {
 		return "GET", "/nf" + f[2], true
 	}
@@ -630,8 +691,21 @@ func (cs *dcase) serve(f []string) string {
 				outcome = "panic:" + encPanic(v)
 			}
 		}()
-		cs.router.ServeHTTP(cs.curRec, cs.curReq)
+		if f[0] == "serveh" && !cs.isTwin && cs.lastCtx != nil {
+			dispStat("requests_through_HandleContext", 1)
+			c := cs.lastCtx.Copy()
+			c.Init(cs.curRec, cs.curReq)
+			cs.router.HandleContext(c)
+		} else {
+			cs.router.ServeHTTP(cs.curRec, cs.curReq)
+		}
 	}()
+	if cs.curCtx != nil {
+		cs.lastCtx = cs.curCtx
+	}
+	if !cs.isTwin {
+		cs.checkKept()
+	}
 	if c := cs.curCtx; c != nil && !cs.isTwin {
 		dispStat("requests_with_user_handler", 1)
 		if cs.ctxSeen[c] {
@@ -817,7 +891,7 @@ func runDispatch(ops []string) (ans []string, oracle []string) {
 				}
 				return r
 			}
-			if f[0] != "serve" {
+			if f[0] != "serve" && f[0] != "serveh" {
 				return "bad-op"
 			}
 			res = cs.serve(f)
@@ -1035,6 +1109,23 @@ func (g *dgen) anyServe(c *dconf) string {
 	}
 }
 
+// viaHandleContext turns a share of the serve ops (not the first one: the router has not handed out a context
+// yet) into `serveh`. Drawn after everything else of the case.
+func viaHandleContext(r *Rand, ops []string, num, den int) (n int) {
+	seen := false
+	for i, op := range ops {
+		if !strings.HasPrefix(op, "serve ") {
+			continue
+		}
+		if seen && r.Chance(num, den) {
+			ops[i] = "serveh " + strings.TrimPrefix(op, "serve ")
+			n++
+		}
+		seen = true
+	}
+	return
+}
+
 /**************** engine panic (C09) ****************/
 
 type panicEngine struct{}
@@ -1085,6 +1176,10 @@ func (panicEngine) Corpus() []Case {
 		{Ops: []string{"new 0 0", "use PH", "route 1 s 0 wr:" + hx("x") + "," + boom, "route 2 s 0 rr:1," + boom, "route 3 s 0 " + boom + " pn:i.2", "serve r 1 - -", "serve r 2 - -", "serve r 3 - -", "serve r 1 - -"}},
 		// a hook that panics itself; a hook that aborts, replaces Resp, adds errors
 		{Ops: []string{"new 0 0", "route 1 s 0 " + boom, "onpanic em:1,pn:s." + hx("again"), "serve r 1 - -", "onpanic ab,rr:2,ae:6531,wr:" + hx("alt"), "onerror em:9", "serve r 1 - -", "serve r 1 - -"}},
+		// the second entry point, Router.HandleContext: a hook that only sets a status, a chain that writes nothing,
+		// a 404 and a 405, then without hook (the value reaches the caller of HandleContext), then ServeHTTP again
+		{Ops: []string{"new 0 1", "route 1 s 0 " + boom, "route 2 d1 0 em:1,ss:204", "onpanic ss:500", "serve r 2 7661 -", "serveh r 1 - -", "serveh r 2 7661 -", "serveh nf 0", "serveh na 1 - -",
+			"nopanic", "serveh r 1 - -", "serveh r 2 7661 -", "serve r 2 7661 -"}, Tag: "corpus-hc"},
 	}
 }
 
@@ -1164,6 +1259,7 @@ func (panicEngine) Gen(r *Rand, tier string) Case {
 	if c.globalPH {
 		tag += "+PH"
 	}
+	viaHandleContext(r, ops, 1, 4)
 	return Case{Ops: ops, Tag: "hook=" + tag}
 }
 
@@ -1194,6 +1290,13 @@ func (ctxEngine) Corpus() []Case {
 		{Ops: []string{"new 0 1", "use dp,nx", "route 1 s 0 ab,ss:404", "route 2 s 0 ae:6531,ae:6532", "route 3 ir 0 st:6b:76,pn:s.78", "route 4 s 0 em:1", "onerror em:2", "onpanic ss:500", "serve r 1 - -", "serve r 4 - -", "serve r 2 - -", "serve r 4 - -", "serve r 3 7661 -", "serve r 4 - -", "serve nf 1", "serve na 3 7661 -"}},
 		// the same without a hook: the panicking request's context never comes back
 		{Ops: []string{"new 1 1", "use dp,nx", "route 3 d1 0 st:6b:76,ss:500,wr:78,pn:s.78", "route 4 s 0 em:1", "serve r 3 7661 -", "serve r 4 - -", "serve r 3 7661 -", "serve r 4 - -"}},
+		// requests through Router.HandleContext mixed with ServeHTTP: every one starts pristine, status-only chains commit
+		{Ops: []string{"new 1 1", "use dp,nx", "route 1 d1 0 st:6b:76,ae:6531,ss:204,ab", "route 2 s 0 em:1", "serve r 1 7661 -", "serveh r 2 - -", "serveh r 1 7661 -", "serve r 2 - -", "serveh nf 0", "serveh na 1 7661 -", "serve r 1 7661 -"}, Tag: "corpus-hc"},
+		// a handler keeps a Copy() of its context (user=alice); later requests on the pooled context set user=bob,
+		// hit a 404, come through HandleContext: the copy keeps what it held
+		{Ops: []string{"new 0 0", "route 1 d1 0 dp,st:" + hx("user") + ":" + hx("alice") + ",kc,wr:" + hx("accepted"), "route 2 s 0 dp,st:" + hx("user") + ":" + hx("bob") + ",wr:" + hx("pong"),
+			"notfound dp", "serve r 1 7661 -", "serve r 2 - -", "serve nf 0", "serveh r 2 - -", "serve r 1 7662 -", "serve r 2 - -"}, Tag: "corpus-kept-copy"},
+		{Ops: []string{"new 1 1", "use dp,kc,nx,st:6b:76,kc", "route 1 d2 0 sp:70:6576696c,kc", "route 2 s 0 pn:s.78", "onpanic kc,ss:500", "serve r 1 7661 7662", "serve r 2 - -", "serve r 1 7661 7662", "serve na 1 7661 7662", "serve r 2 - -"}, Tag: "corpus-kept-copy"},
 	}
 }
 
@@ -1232,13 +1335,44 @@ func (ctxEngine) Gen(r *Rand, tier string) Case {
 			first(&c.notAllowed[0])
 		}
 	}
-	ops := c.ops()
 	n := r.Range(3, 12)
 	if tier == "thorough" {
 		n = r.Range(3, 30)
 	}
+	var serves []string
 	for i := 0; i < n; i++ {
-		ops = append(ops, g.anyServe(c))
+		serves = append(serves, g.anyServe(c))
 	}
-	return Case{Ops: ops, Tag: fmt.Sprintf("caching=%s hook=%s", b2s(c.caching), b2s(c.hasHook))}
+	// drawn last (everything above is what the same seed generated before these streams existed):
+	// a fifth of the requests enter through Router.HandleContext; in a quarter of the cases one to three handlers
+	// keep a Copy() of their context
+	viaHandleContext(r, serves, 1, 5)
+	tag := fmt.Sprintf("caching=%s hook=%s", b2s(c.caching), b2s(c.hasHook))
+	if r.Chance(1, 4) {
+		var slots []*[]string
+		for i := range c.globals {
+			slots = append(slots, &c.globals[i])
+		}
+		for i := range c.routes {
+			for j := range c.routes[i].hs {
+				slots = append(slots, &c.routes[i].hs[j], &c.routes[i].hs[j])
+			}
+		}
+		for i := range c.notFound {
+			slots = append(slots, &c.notFound[i])
+		}
+		for i := range c.notAllowed {
+			slots = append(slots, &c.notAllowed[i])
+		}
+		for i, k := 0, r.Range(1, 3); i < k; i++ {
+			h := slots[r.Intn(len(slots))]
+			lo := 0
+			if len(*h) > 0 && (*h)[0] == "dp" {
+				lo = 1 // the dump stays the first action
+			}
+			*h = insertAt(*h, r.Range(lo, len(*h)), "kc")
+		}
+		tag += " copy"
+	}
+	return Case{Ops: append(c.ops(), serves...), Tag: tag}
 }
